@@ -119,6 +119,9 @@ func runConc(cc concCase) { runConcBatch([]concCase{cc}) }
 // re-confirmed and pinned to a case by re-running the batch's cases one by
 // one on fresh directories -- only a re-confirmed failure is reported.
 func runConcBatch(cases []concCase) {
+	if wedged >= 3 {
+		return
+	}
 	var free []concPrep
 	for _, cc := range cases {
 		p := prepConc(cc)
